@@ -80,6 +80,7 @@ type Result struct {
 	Uncancelled []int    `json:"uncancelled,omitempty"`
 	Starts      []int    `json:"starts"`
 	FreeRun     bool     `json:"free_run"`
+	Timeouts    int      `json:"timeouts"` // steps after which the system had not settled within StepWait (machine too slow): actors may have run concurrently
 	Updates     int      `json:"update_sent"`
 }
 
@@ -728,7 +729,9 @@ func runSchedule(s Schedule, evw *bufio.Writer) (res Result) {
 		}
 		o, _ := ctl.Step(id)
 		awaitSpawns()
-		ctl.Settle()
+		if !ctl.Settle() || o == gate.Timeout {
+			res.Timeouts++
+		}
 		return o
 	}
 
